@@ -57,6 +57,10 @@ func H_Echo() {
 	creation := vrt.Pick("creation", 0, 2)      // 0 ok, 1 provider closed, 2 scope initializer fails on the 2nd request
 	withScopeMw := vrt.Pick("scopemw", 0, 1) == 1 || !useHandle
 	vrt.Assume(useHandle || (ctrlReg && !recovery))
+	// the scope is closed under the handler's feet: the last configured
+	// middleware closes it (as a cancelled request context or a shutdown would)
+	mwCloses := vrt.Pick("mwcloses", 0, 1) == 1
+	vrt.Assume(!mwCloses || (nmw >= 1 && failAt < 0 && useHandle && ctrlReg && withScopeMw && creation == 0 && outcome == 0))
 
 	c := godi.NewCollection()
 	// controller: scoped, disposable, receives (Scope, Provider, Context)
@@ -83,6 +87,9 @@ func H_Echo() {
 			s.Get(kit.TypeS[1])
 			if i == failAt {
 				return errMw
+			}
+			if mwCloses && i == nmw-1 {
+				s.Close()
 			}
 			return nil
 		}))
@@ -201,6 +208,10 @@ func H_Echo() {
 				switch {
 				case !withScopeMw:
 					vrt.Assert(lg.scopeErrH == 1 && lg.methodRan == 0 && lg.resErrH == 0, "C16.handle_without_scope", "Handle without a scope in the context: scopeErr", lg.scopeErrH, "method", lg.methodRan, "resErr", lg.resErrH)
+				case mwCloses:
+					vrt.Cover("closed_before_handle")
+					vrt.Assert(lg.methodRan == 0, "C16.handle_method_without_controller", "the controller method ran although the controller could not be resolved (scope already closed)")
+					vrt.Assert(lg.scopeErrH+lg.resErrH == 1, "C16.handle_error_handlers", "scope already closed: scope-error handler ran", lg.scopeErrH, "times, resolution-error handler", lg.resErrH, "times; want exactly one of them once")
 				case !ctrlReg:
 					vrt.Assert(lg.resErrH == 1 && lg.methodRan == 0 && lg.scopeErrH == 0, "C16.handle_unresolvable", "Handle with an unregistered controller: resErr", lg.resErrH, "method", lg.methodRan)
 				default:
@@ -218,7 +229,7 @@ func H_Echo() {
 					vrt.Assert(panicked, "C16.panic_swallowing", "a panic of a plain handler was swallowed by the scope middleware")
 				}
 			}
-			if withScopeMw && (lg.handlerRan+lg.methodRan) > 0 {
+			if withScopeMw && (lg.handlerRan+lg.methodRan) > 0 && !mwCloses {
 				vrt.Assert(lg.handlerScope != nil && lg.openInHandler, "C16.scope_not_visible", "handler did not find an open scope in the request context")
 				if len(lg.mwScopes) > 0 {
 					vrt.Assert(lg.mwScopes[0] == lg.handlerScope, "C16.scope_differs", "middlewares and handler saw different scopes")
